@@ -92,6 +92,7 @@ func stdEnv(r *mon.Rng) *env {
 	add("FALSE", vBool(true))
 	add("in", vInt(9))
 	add("\"a\"", vInt(29)) // a name that itself starts and ends with a quote character: written """a"""
+	add(" ", vInt(31))     // a name made of one blank: written " " in double quotes
 	add("ds", vStr(mon.Pick(r, []string{"2024-01-01T10:00:00Z", "2024-01-02T10:00:00Z", "2024-01-03T10:00:00Z", "2024-01-04T10:00:00Z", "2024-01-05T10:00:00Z", "2024-01-06T23:30:00-11:00"})))
 	add("dt", vTime(time.Unix(int64(86400*(19000+r.Intn(7))), 0).UTC()))
 	return e
@@ -114,7 +115,7 @@ func (g *exprGen) typed(depth int, want string) *model.Node {
 		case "str":
 			return mon.Pick(r, []*model.Node{leafConst("'ab'"), leafConst("'b'"), leafConst("'it''s'"), leafVar("s"), leafVar("t"), leafConst("'2'"), leafConst("'11'"), leafConst("'1.5'")})
 		case "num":
-			return mon.Pick(r, []*model.Node{leafConst("1.5"), leafConst("2e1"), leafVar("f"), leafVar("x"), leafConst("3"), leafVar("a"), leafConst("1e39"), leafConst("4E+38"), leafConst("0.5e-46"), leafConst("3.4e38"), leafConst("1e-45")})
+			return mon.Pick(r, []*model.Node{leafConst("1.5"), leafConst("2e1"), leafVar("f"), leafVar("x"), leafConst("3"), leafVar("a"), leafConst("1e39"), leafConst("4E+38"), leafConst("0.5e-46"), leafConst("3.4e38"), leafConst("1e-45"), leafConst("1.0000000596046447753906250000001"), leafConst("16777217.000000000000001"), leafConst("0.1000000014901161193847656250000001")})
 		}
 		return mon.Pick(r, []*model.Node{leafVar("n"), leafVar("arr"), leafVar("a"), leafConst("'b'"), leafVar("p"), leafVar("x")})
 	}
@@ -206,7 +207,7 @@ func (g *exprGen) shape(depth int) *model.Node {
 		if r.Chance(1, 3) {
 			return leafConst(mon.Pick(r, []string{"2", "3", "5", "'s'", "TRUE", "1.5", "7", "'2'", "'3'", "'1.5'", "'TRUE'", "'a'"}))
 		}
-		return leafVar(mon.Pick(r, []string{"a", "b", "c", "s", "p", "n", "arr", "\"my var\"", "\"not\"", "\"FALSE\"", "\"in\"", "\"\"\"a\"\"\""}))
+		return leafVar(mon.Pick(r, []string{"a", "b", "c", "s", "p", "n", "arr", "\"my var\"", "\"not\"", "\"FALSE\"", "\"in\"", "\"\"\"a\"\"\"", "\" \""}))
 	}
 	d := depth - 1
 	switch x := r.Intn(30); {
